@@ -33,7 +33,7 @@ def cut_key(c):
 def run(ctx):
     info, ob_failed = g.prepare(ctx, PROP_FILE)
     meta, herr = g.run_harness(ctx, "c12", ["-status-literals", status_literals()], timeout=1500)
-    e_bad_m, e_bad_p, c_bad_m, c_bad_p = [], [], [], []
+    e_bad_m, e_bad_p, c_bad_m, c_bad_p, s_bad_m, s_bad_p = [], [], [], [], [], []
     hostile = []
     if meta is None:
         ob_failed.append(herr)
@@ -49,8 +49,10 @@ def run(ctx):
             r = res.get(shard) or {}
             kind, idx = shard.split("_")[0], int(shard.split("_")[1].split(".")[0])
             base = idx * meta["shard_size"]
-            src = ej if kind == "ecases" else cj
-            for ident, acc in (("M", e_bad_m if kind == "ecases" else c_bad_m), ("P", e_bad_p if kind == "ecases" else c_bad_p)):
+            sj = g.load_jsonl(os.path.join(ctx.work, "scases.jsonl"))
+            src = {"ecases": ej, "ccases": cj, "scases": sj}[kind]
+            for ident, acc in (("M", {"ecases": e_bad_m, "ccases": c_bad_m, "scases": s_bad_m}[kind]),
+                               ("P", {"ecases": e_bad_p, "ccases": c_bad_p, "scases": s_bad_p}[kind])):
                 for i in (ctx.parse_nlist(r.get(ident)) or []):
                     acc.append(src[base + i] if base + i < len(src) else {"index": base + i, "name": "?"})
 
@@ -71,6 +73,22 @@ def run(ctx):
                                                      "unchecked": "correspondence G12.Errors.classify vs HTTPProxy.errorResponse"}, False,
                       "%d synthetic errors where model and implementation choose different statuses (or the two parsers disagree); e.g. %s: "
                       "implementation %s, features %s" % (len(e_bad_m), c["name"], c.get("code"), json.dumps(c.get("feat"))))
+    # fault classes end to end
+    want = {"connfail": "502", "tlsfail": "502", "timeout": "504", "rejected": "the upstream proxy's status", "other": "5xx", "refusal": "4xx/5xx"}
+    skeys = set()
+    for c in sorted(s_bad_p, key=lambda c: len(c.get("name", ""))):
+        k = "status:%s" % c.get("name")
+        skeys.add(c.get("name"))
+        ctx.violation(k, {"kind": "status", "name": c.get("name")}, True,
+                      "fault class '%s' must be answered with %s and a complete well-formed response; %s got: %s %s, X-Forwarder-Error: %s" % (
+                          c.get("class"), want.get(c.get("class")), c.get("name"), c.get("verdict"), c.get("status"), c.get("err_hdr")))
+    for c in s_bad_m:
+        if c.get("name") in skeys:
+            continue
+        ctx.violation("correspondence:status-%s" % c.get("name"),
+                      {"kind": "status", "name": c.get("name"), "unchecked": "correspondence G12.Errors.classify (features of the scenario) vs implementation"}, False,
+                      "status differs from the model's prediction although the class predicate holds: %s -> %s (features %s) %s" % (
+                          c.get("name"), c.get("status"), json.dumps(c.get("feat")), c.get("harness_err", "")))
     # cut sweep
     pkeys = set()
     for c in sorted(c_bad_p, key=lambda c: (c.get("k", 0), len(c.get("name", "")))):
@@ -139,7 +157,7 @@ def run(ctx):
         ]),
         "theorems": info["theorems"],
         "unchecked_obligations": ob_failed,
-        "evaluations": int(meta.get("classifier_cases", 0)) + int(meta.get("cut_cases", 0)) + int(meta.get("hostile_cases", 0)),
+        "evaluations": int(meta.get("classifier_cases", 0)) + int(meta.get("cut_cases", 0)) + int(meta.get("hostile_cases", 0)) + int(meta.get("status_cases", 0)),
         "distinct_nontrivial": int(meta.get("cut_cases", 0)) + len(meta.get("classifier_codes", {})),
         "rule": "classifier: every error atom alone, wrapped, and seeded joins of 2-3 atoms x http/https; cut sweep: every cut point k of "
                 "the origin reply (direct route, HTTP/1.1: all k; other combinations: stride 2 or 3 in quick, all k in thorough) x FIN/RST "
@@ -147,9 +165,9 @@ def run(ctx):
                 "x {plain, MITM, TLS listener} + seeded mutants + hostile origin replies, proxy in a child process, probe after each; "
                 "distinct_nontrivial = cut cases + distinct classifier outcomes",
         "traces_validated_against_impl": int(meta.get("classifier_cases", 0)) + int(meta.get("cut_cases", 0)),
-        "model_mismatches": len(e_bad_m) + len(c_bad_m),
-        "property_failures_on_impl": len(e_bad_p) + len(c_bad_p),
-        "distribution": {"classifier_codes": meta.get("classifier_codes"), "cut_outcomes": meta.get("cut_outcomes"),
+        "model_mismatches": len(e_bad_m) + len(c_bad_m) + len(s_bad_m),
+        "property_failures_on_impl": len(e_bad_p) + len(c_bad_p) + len(s_bad_p),
+        "distribution": {"classifier_codes": meta.get("classifier_codes"), "cut_outcomes": meta.get("cut_outcomes"), "status_classes": meta.get("status_classes"),
                          "hostile_cases": meta.get("hostile_cases"),
                          "hostile_crashes": sum(1 for h in hostile if h.get("crashed")),
                          "endless_request_line": {k: {f: v.get(f) for f in ("sent", "seconds", "rss_before_kb", "rss_after_kb", "rss_peak_kb", "crashed")}
